@@ -3,6 +3,7 @@ import SV.Shard
 import Driver.TxCacheDrv
 import Driver.ImmunityDrv
 import Driver.LRUDrv
+import Driver.PersistDrv
 open SV
 
 def tokens (line : String) : List String :=
@@ -54,5 +55,6 @@ def main (args : List String) : IO UInt32 := do
   | ["txcache"] => loopState stdin stdout Drv.TxCache.step {}; return 0
   | ["immunity"] => loopState stdin stdout Drv.Immunity.step {}; return 0
   | ["lru"] => loopState stdin stdout Drv.LRU.step {}; return 0
+  | ["persist"] => loopState stdin stdout Drv.Persist.step {}; return 0
   | ["shard"] => loopStateless stdin stdout shardStep; return 0
   | _ => IO.eprintln "usage: svdriver <component>"; return 2
